@@ -2,6 +2,6 @@ SPECIFICATION Spec
 CONSTANTS
   StationLegacySkip = 104
   StationRandMinVer = 3
-  ClientPortSource = "session"
-INVARIANT Emit
+  ClientPortSource = "dialer"
+INVARIANTS Agreement
 CHECK_DEADLOCK FALSE
